@@ -1,6 +1,7 @@
 package main
 
 import (
+	"golang.org/x/tools/go/ssa"
 	"bufio"
 	"encoding/json"
 	"flag"
@@ -232,6 +233,54 @@ func cmdCheck(args []string) {
 		}
 	}
 	seenNames := map[string]bool{}
+	// Does the contract still fit the function? A clause that no longer resolves (a renamed local, a
+	// range loop rewritten as an index loop) or a changed number of loops (loop clauses are keyed by
+	// ordinal) means invariants are missing or attached to the wrong loop: what is refuted then is
+	// the stale contract, not the code. Refutations in such a function count only if they replay.
+	misfit := map[string]string{}
+	metaNow := []string{}
+	for _, fr := range frs {
+		if fr.VC == nil || fr.VC.rootFr == nil || fr.Contract == nil || fr.Contract.Kind == "lemma" {
+			continue
+		}
+		nerr := 0
+		for _, n := range fr.VC.notes {
+			if strings.HasPrefix(n, "contract error") {
+				nerr++
+			}
+		}
+		ml := fmt.Sprintf("%s#meta:loops=%d", fr.FullName, len(fr.VC.rootFr.loops))
+		me := fmt.Sprintf("%s#meta:contracterrors=%d", fr.FullName, nerr)
+		mv := fr.FullName + "#meta:loopvars=" + loopVarSignature(fr.VC.rootFr)
+		metaNow = append(metaNow, ml, me, mv)
+		seenNames[ml], seenNames[me], seenNames[mv] = true, true, true
+		expLoops, expErrs := -1, 0
+		expVars, haveVars := "", false
+		for n := range expected {
+			if rest, ok := strings.CutPrefix(n, fr.FullName+"#meta:loops="); ok {
+				fmt.Sscan(rest, &expLoops)
+			}
+			if rest, ok := strings.CutPrefix(n, fr.FullName+"#meta:contracterrors="); ok {
+				fmt.Sscan(rest, &expErrs)
+			}
+			if rest, ok := strings.CutPrefix(n, fr.FullName+"#meta:loopvars="); ok {
+				expVars, haveVars = rest, true
+			}
+		}
+		switch {
+		case nerr > expErrs:
+			misfit[fr.FullName] = "clauses of its contract no longer resolve against the function"
+		case expLoops >= 0 && expLoops != len(fr.VC.rootFr.loops):
+			misfit[fr.FullName] = "the function's number of loops changed (loop clauses are keyed by ordinal)"
+		case haveVars && expVars != loopVarSignature(fr.VC.rootFr):
+			misfit[fr.FullName] = "the loop-carried variables of its loops changed (the invariants were written for other loops)"
+		}
+	}
+	for n := range expected {
+		if strings.Contains(n, "#meta:") {
+			seenNames[n] = true // compared above, never reported as vanished
+		}
+	}
 	// `panicfree` functions: the claim "never panics" is an obligation of its own, discharged when
 	// every run-time-failure obligation of the function is
 	panicFreeOK := map[string]bool{}
@@ -359,7 +408,19 @@ func cmdCheck(args []string) {
 				if claimedPanicFree {
 					shapeOK = true
 				}
-				if (expected[name] || claimedPanicFree || (or.Obl.Kind != "safe" && expectedNorm[normName(name)])) && shapeOK && !tainted {
+				mis := misfit[or.Func.FullName]
+				if mis != "" && !tainted && !strings.HasPrefix(or.Obl.Kind, "inv") && or.Obl.Kind != "dec" && or.Obl.Kind != "frame" &&
+					(expected[name] || expectedNorm[normName(name)]) {
+					// The contract's loop clauses no longer fit. Decide the obligation on the paths that
+					// need no invariant: those that leave every loop before completing an iteration.
+					// A counterexample there is a real path of the function (callees by contract).
+					if firstIterRefuted(ctx, or, secs) {
+						mis = ""
+						shapeOK = true
+						rf.ReplayInfo += " | the contract's loop clauses no longer fit the function; refuted on the paths that leave every loop before completing an iteration (no invariant needed)"
+					}
+				}
+				if (expected[name] || claimedPanicFree || (or.Obl.Kind != "safe" && expectedNorm[normName(name)])) && shapeOK && !tainted && mis == "" {
 					isViolation = true
 					suffix = " no-failing-input-found"
 				} else {
@@ -368,6 +429,8 @@ func cmdCheck(args []string) {
 						why = "path goes through unmodelled code"
 					} else if !shapeOK {
 						why = "obligation set of this function changed shape"
+					} else if mis != "" {
+						why = "the contract no longer fits the function: " + mis
 					}
 					fmt.Printf("UNDECIDED obligation=%s reason=refuted but %s and no replay (%s)\n", name, why, ro.Detail)
 					undecided = append(undecided, name+": refuted, unconfirmed")
@@ -411,6 +474,7 @@ func cmdCheck(args []string) {
 				names = append(names, or.Obl.Name)
 			}
 		}
+		names = append(names, metaNow...)
 		sort.Strings(names)
 		os.MkdirAll(filepath.Join(*verif, "expected"), 0o755)
 		os.WriteFile(filepath.Join(*verif, "expected", *prop+".txt"), []byte("# obligations discharged on the unchanged tree\n"+strings.Join(names, "\n")+"\n"), 0o644)
@@ -501,4 +565,49 @@ func cmdReplay(args []string) {
 		os.Exit(1)
 	}
 	os.Exit(0)
+}
+
+// loopVarSignature: per loop (by ordinal) the source names of its loop-carried variables.
+func loopVarSignature(fr *Frame) string {
+	var parts []string
+	for h, li := range fr.loops {
+		var names []string
+		for _, in := range h.Instrs {
+			phi, ok := in.(*ssa.Phi)
+			if !ok {
+				break
+			}
+			names = append(names, phi.Comment)
+		}
+		sort.Strings(names)
+		parts = append(parts, fmt.Sprintf("%03d:%s", li.ordinal, strings.Join(names, ",")))
+	}
+	sort.Strings(parts)
+	return strings.Join(parts, ";")
+}
+
+// firstIterRefuted re-generates the function's conditions in the under-approximating mode (loops
+// entered without havoc, paths cut at back edges) and asks whether the obligation of the same name
+// is refuted there.
+func firstIterRefuted(ctx *Ctx, or *OblResult, secs int) bool {
+	ctx.firstIter = true
+	defer func() { ctx.firstIter = false }()
+	fr := ctx.GenVC(or.Func.Contract)
+	if fr == nil || fr.VC == nil || fr.Err != "" {
+		return false
+	}
+	useCoreTypes = fr.Contract.CoreTypes
+	fr.VC.declsCache = fr.VC.tt.Decls()
+	want := normName(or.Obl.Name)
+	refuted := false
+	for _, o := range fr.Obls {
+		if normName(o.Name) != want || o.Bound != "" {
+			continue
+		}
+		r := Solve(fr.VC, o, secs, false, "fi")
+		if r.Status == "sat" {
+			refuted = true
+		}
+	}
+	return refuted
 }
